@@ -313,7 +313,7 @@ Example C15_test_all_one_chunk_tapes_n_le_4 :
 Proof. vm_compute. reflexivity. Qed.
 
 Example C15_test_all_two_chunk_tapes_n_3 :
-  map (count_tapes 3 (repeat 0xff%N 8) 2) [0; 1; 2; 3]%N = [20480; 20480; 20480; 0]%nat.
+  map (fun v => N.of_nat (count_tapes 3 (repeat 0xff%N 8) 2 v)) [0; 1; 2; 3]%N = [20480; 20480; 20480; 0]%N.
 Proof. vm_compute. reflexivity. Qed.
 
 Definition outcomes {A} (run : prg -> res A) (tapes : list (list N)) : list A :=
@@ -321,11 +321,16 @@ Definition outcomes {A} (run : prg -> res A) (tapes : list (list N)) : list A :=
 
 Definition listZ_dec : forall a b : list Z, {a = b} + {a <> b} := list_eq_dec Z.eq_dec.
 
+(* distinct elements, linear in (length * number of distinct elements) *)
+Definition distinct (l : list (list Z)) : list (list Z) :=
+  fold_left (fun acc x => if in_dec listZ_dec x acc then acc else x :: acc) l [].
+Definition occurs (l : list (list Z)) (p : list Z) : N := N.of_nat (count_occ listZ_dec l p).
+
 (* Permutation(3) on all 65536 two-byte tapes: 6 outcomes, each on exactly 128*64 tapes *)
 Example C15_test_permutation_3_all_two_byte_tapes :
   let outs := outcomes (permutation 3) (vectors 256 2) in
-  let ds := nodup listZ_dec outs in
-  length ds = 6%nat /\ forallb (fun p => Nat.eqb (count_occ listZ_dec outs p) 8192) ds = true /\
+  let ds := distinct outs in
+  length ds = 6%nat /\ forallb (fun p => N.eqb (occurs outs p) 8192) ds = true /\
   forallb (is_perm_of_range 3) ds = true.
 Proof. vm_compute. repeat split; reflexivity. Qed.
 
@@ -333,8 +338,8 @@ Proof. vm_compute. repeat split; reflexivity. Qed.
    bits of a byte are used for n <= 4): 24 outcomes, each on exactly 10 tapes *)
 Example C15_test_permutation_4_all_tapes_low_bits :
   let outs := outcomes (permutation 4) (vectors 4 4) in
-  let ds := nodup listZ_dec outs in
-  length ds = 24%nat /\ forallb (fun p => Nat.eqb (count_occ listZ_dec outs p) 10) ds = true /\
+  let ds := distinct outs in
+  length ds = 24%nat /\ forallb (fun p => N.eqb (occurs outs p) 10) ds = true /\
   forallb (is_perm_of_range 4) ds = true.
 Proof. vm_compute. repeat split; reflexivity. Qed.
 
@@ -345,6 +350,6 @@ Example C15_test_samples_4_2_all_tapes_low_bits :
                                                | Some R => Ok (firstn 2 R) s' | None => Panic end
                                  | Err e => Err e | Panic => Panic
                                  | OutOfTape => OutOfTape | OutOfFuel => OutOfFuel end) (vectors 4 3) in
-  let ds := nodup listZ_dec outs in
-  length ds = 12%nat /\ forallb (fun p => Nat.eqb (count_occ listZ_dec outs p) 5) ds = true.
+  let ds := distinct outs in
+  length ds = 12%nat /\ forallb (fun p => N.eqb (occurs outs p) 5) ds = true.
 Proof. vm_compute. repeat split; reflexivity. Qed.
